@@ -217,6 +217,11 @@ fn rt_case(ctx: &PCtx, di: usize, c: &PCase) -> PResult {
     if !has_nan(&c.value) {
         ensure!(out.second_equal == Some(true), "not-equal-after-roundtrip", "{}: decode(encode(m)) != m\n m = {}", name, vcore::evidence::truncate(&out.debug, 600));
     }
+    for (k, re) in &out.chain_suspects {
+        let other = decode_msg(doc, &c.msg, re).map(|m| doc.canon(&c.msg, &m));
+        ensure!(other.as_ref().ok() == Some(&got), "segmented-buffer-decode-differs", "{}: decoding the same bytes from a segmented buffer (Buf::chain, split at {} of {}) gives a different message than decoding them contiguously\n contiguous {:?}\n segmented  {:?}", name, k, bytes.len(), got, other);
+    }
+    ensure!(out.chain_mismatch.is_none(), "segmented-buffer-decode-differs", "{}: decoding the same bytes from a segmented buffer (Buf::chain) differs from decoding them contiguously: {}\n m = {}", name, out.chain_mismatch.clone().unwrap_or_default(), vcore::evidence::truncate(&out.debug, 2000));
     ensure!(out.framed_ok, "length-delimited-framing", "{}: encode_length_delimited / decode_length_delimited does not round-trip\n m = {}", name, out.debug);
     check_debug_scalars(doc, c, &out.debug)?;
     Ok(())
@@ -728,6 +733,10 @@ pub fn c10(ctx: &PCtx) -> i32 {
     code
 }
 
+thread_local! {
+    static LEAK_ACC: RefCell<vcore::evidence::LeakAcc> = RefCell::new(vcore::evidence::LeakAcc::default());
+}
+
 fn leak_case(ctx: &PCtx, di: usize, c: &PFaultCase) -> PResult {
     let doc = &ctx.corpus.docs[di].doc;
     let e = ctx.entry(di, &c.base.msg);
@@ -755,6 +764,7 @@ fn leak_case(ctx: &PCtx, di: usize, c: &PFaultCase) -> PResult {
     if !failed {
         return Ok(());
     }
+    LEAK_ACC.with(|a| a.borrow_mut().add(growth[0], &format!("{} [{}]", name, what)));
     ensure!(unique, "pb-input-still-referenced", "{}: after a failed decode the input buffer is still referenced [{}]", name, what);
     ensure!(!(growth[1] > 0 && growth[1] == growth[2]), "pb-leak", "{}: every failed decode of this input leaves {} bytes allocated [{}] input {}", name, growth[1], what, vcore::tval::hex(&input[..input.len().min(96)]));
     Ok(())
@@ -782,6 +792,15 @@ pub fn c19(ctx: &PCtx) -> i32 {
         if let Some((case, f)) = res {
             seen.insert(f.key.clone());
             ctx.report(&rec, "proto-leak", &case, &f);
+        }
+    }
+    // memory that stays behind once per *distinct* rejected input (a cache keyed by something the
+    // input chooses, a thread-local that is only balanced on success) does not repeat when one
+    // input is decoded three times; it shows as live bytes that keep accumulating over the run
+    if let Some(msg) = LEAK_ACC.with(|a| a.borrow().verdict()) {
+        let f = Fail::new("pb-leak-accumulating", msg);
+        if !ctx.findings.is_open("C19", &f.key) {
+            ctx.report(&rec, "proto-leak", &json!({"accumulated": true}), &f);
         }
     }
     let code = rec.borrow().finish(&ctx.findings);
